@@ -71,8 +71,7 @@ unsigned long w_index;
 
 void harness(void)
 {
-    unsigned n;
-    char *in = vr_input(&n);
+    VR_INPUT(in, n);
     unsigned long nw, idx;
     unsigned rn;
 
